@@ -22,12 +22,13 @@ META = {
             "body, HEAD answers carry none, a throwing handler yields 500, an unparsable request yields its error status and the close, "
             "close is honoured, only a handler that takes the connection over leaves a request unanswered; (b) the per-connection "
             "sequencing (extraction in arrival order on the I/O thread, any number of workers, one send per response) for EVERY pool "
-            "schedule: each extracted request is answered exactly once, and with ONE worker in arrival order; for the pool the server "
-            "ships (2-8 workers) order is refuted (known finding). Tied to the code by scripts that decide the order in which real pool "
+            "schedule: each extracted request is answered exactly once, and with ONE worker per connection - what the server does since "
+            "the repair of F6a - in arrival order; handing all pipelined requests to the pool at once (the code as found) is refuted. Tied to the code by scripts that decide the order in which real pool "
             "workers finish, and by real-socket pipelines judged by an independent framer.",
     "design_ref": "DESIGN.md §7 C16",
-    "note": "partial / finding: pipelined responses are sent in handler COMPLETION order (C16-F6a, recorded, not repaired: a per-connection "
-            "reorder buffer touches every send path of processHttpRequest). 'bytes of different responses never interleave' rests on one "
+    "note": "the server as found sent pipelined responses in handler completion order (C16-F6a); since the repair the requests of one "
+            "connection are handed to the pool one at a time, which makes the one-worker order theorem the one that applies; the check "
+            "still looks for overtaking in every gated script and every real pipeline. 'bytes of different responses never interleave' rests on one "
             "sendAsync per response and C01 (a send's bytes are contiguous). Handlers that write Response::body directly (not through "
             "set_content) are outside clause 3. Trusted: Coq kernel; extraction + OCaml driver; harness/c16_impl.cpp (gates, wire summary, "
             "Content-Length framer).",
@@ -49,14 +50,12 @@ def gen_script(rng):
         if r < 0.6 and len(waiting) < 6:
             # one read with 1..4 requests; at most one of them answers without a handler gate
             qs = []
-            imm_used = False
             for _ in range(rng.randint(1, 4)):
                 if len(waiting) >= 6:
                     break
                 nid += 1
-                if not imm_used and rng.random() < 0.2:
+                if rng.random() < 0.25:
                     kind = rng.choice(IMMEDIATE)
-                    imm_used = True
                 else:
                     kind = rng.choice(GATED)
                     waiting.append(str(nid))
@@ -80,7 +79,8 @@ def gen_script(rng):
 
 
 CORPUS = [
-    "G Q1:get+Q2:get;O2;O1",                      # the second handler finishes first: responses overtake (C16-F6a)
+    "G Q1:get+Q2:get;O2;O1",                      # the second gate opens first: the responses must still leave in request order (F6a)
+    "G Q1:get+Q2:na+Q3:opt+Q4:post+Q5:bad;O4;O1",
     "G Q1:get+Q2:head+Q3:throw+Q4:post;O1;O2;O3;O4",
     "G Q1:dflt;Q2:na;Q3:opt;Q4:star;O1;Q5:supp;O5;Q6:get:c;O6",
     "G Q1:get;O1;Q2:bad",
@@ -170,10 +170,10 @@ def run(ctx):
                            "random order (so pool workers finish out of arrival order); compared token by token with the extracted model: per "
                            "send the request id, status, body presence, close flag, Content-Length consistency, and the close commands. Real "
                            "server: pipelines of 3-16 requests with sleeping handlers over a raw socket, independent framer. Runs whose responses "
-                           "overtook: %d (known finding C16-F6a)." % overtaken)
+                           "overtook: %d." % overtaken)
             cov["samples"] = ["status tokens: %s" % sorted(kinds.items())]
     rc = v.finish()
-    ctx["assumptions"] = ["at most one request per read is answered without a handler gate (two such requests race in the pool)"]
+    ctx["assumptions"] = ["loopback TCP for the real-socket pipelines"]
     vlib.write_evidence(ctx, proof, cov, time.time() - t0, len(v.violations))
     return rc
 
